@@ -24,7 +24,7 @@ TITLES = ["~Version", "~Well", "~Parameter", "~Curves", "~Xyz"]
 BOUNDS = {
     "quick": {"value_cap": 5, "mnemonic_cap": 3, "titles": TITLES, "versions": [1.2, 2.0], "task_budget_s": 600,
               "alphabet": "printable Latin-1, value equal to its own strip (as read_header_line delivers it)"},
-    "thorough": {"value_cap": 8, "mnemonic_cap": 3, "titles": TITLES, "versions": [1.2, 2.0], "task_budget_s": 3300,
+    "thorough": {"value_cap": 6, "mnemonic_cap": 3, "titles": TITLES, "versions": [1.2, 2.0], "task_budget_s": 3300,
                  "alphabet": "printable Latin-1, value equal to its own strip"},
 }
 ASSUMPTIONS = [
